@@ -4,7 +4,7 @@ import os
 
 import core
 from corr.bloom import strategy
-from search.common import drive, keys_pool, shrink_ops
+from search.common import drive, keys_pool, noise_touch, shrink_ops
 
 STRATS = ["fnv", "fnv", "md5", "sha256", "custom", "dint:fnvseed", "dint:sumlen", "dbytes:fnvle", "dbytes:chain"]
 
@@ -59,9 +59,24 @@ def check(case):
             else:
                 obj = ExpandingBloomFilter(est_elements=case["est"], false_positive_rate=case["fpr"], hash_function=fn)
             added = []
+            twin = None
+            if kind != "ondisk":
+                twin = type(obj)(est_elements=case["est"] + 3, false_positive_rate=min(0.9, case["fpr"] * 1.7), hash_function=fn)
             for step, op in enumerate(case["ops"]):
+                noise_touch(twin, step)
                 if op[0] == "add":
-                    obj.add(op[1])
+                    if kind == "bloom" and step % 4 == 1 and twin is not None:
+                        # the *_alt API: one list of hashes computed once and handed to several filters
+                        hs = obj.hashes(op[1], max(obj.number_hashes, twin.number_hashes))
+                        want = list(hs)
+                        obj.add_alt(hs)
+                        if hs != want:
+                            return f"step {step}: add_alt changed the list of hashes it was given"
+                        twin.add_alt(hs)
+                        if not twin.check_alt(want) or not twin.check(op[1]):
+                            return f"step {step}: a second filter given the same list of hashes does not report {op[1]!r}"
+                    else:
+                        obj.add(op[1])
                     added.append(op[1])
                 elif op[0] == "addforce":
                     if kind == "expanding":
@@ -84,12 +99,16 @@ def check(case):
                         if chan == "bytes":
                             obj = BloomFilter.frombytes(bytes(obj), hash_function=fn)
                         elif chan == "file":
+                            with open(path, "wb") as fh:  # an older, larger file is already there
+                                fh.write(b"\x5a" * (len(bytes(obj)) + 977))
                             obj.export(path)
                             obj = BloomFilter(filepath=path, hash_function=fn)
                         else:
                             obj = BloomFilter(hex_string=obj.export_hex(), hash_function=fn)
                     elif kind == "expanding":
                         if chan == "file":
+                            with open(path, "wb") as fh:
+                                fh.write(b"\x5a" * (len(bytes(obj)) + 977))
                             obj.export(path)
                             obj = ExpandingBloomFilter(filepath=path, hash_function=fn)
                         else:
